@@ -23,3 +23,4 @@ def ev_probe(w, ev):
 
 
 from . import probes_io  # noqa: E402,F401  (registers probes)
+from . import probes_text  # noqa: E402,F401
